@@ -21,6 +21,8 @@ func main() {
 		os.Exit(wsstressMain(os.Args[2:]))
 	case "jsonrt":
 		os.Exit(jsonrtMain(os.Args[2:]))
+	case "txtqr":
+		os.Exit(txtqrMain(os.Args[2:]))
 	case "connstep":
 		os.Exit(connstepMain(os.Args[2:]))
 	default:
